@@ -1,4 +1,4 @@
-import Ledger.Proofs.MachineAsset
+import Ledger.Proofs.MachineNoFault4
 import Ledger.Machine.VM
 
 /-!
@@ -59,146 +59,29 @@ theorem error_leaves_no_postings (s : Script) (inp : Input) (e : Err) (h : sem c
     postingsOf (sem cfg s inp) = none := by
   rw [h]; rfl
 
-/-- Runtime type of a value. -/
-def valueTy : Value → Ty
-  | .account _ => .account
-  | .asset _ => .asset
-  | .number _ => .number
-  | .str _ => .string
-  | .monetary _ _ => .monetary
-  | .portion _ => .portion
+/-- Expression level: an expression the compiler typed evaluates to a value of that
+    type, or stops with one of the VM's own runtime errors (asset mismatch of `+` / `-`);
+    it never hits a typed-pop fault. -/
+theorem welltyped_expr_no_fault (ds : Decls) (env : Env) (henv : EnvTyped ds env) (e : Expr) (t : Ty)
+    (h : typeExpr ds e = .ok t) :
+    (∃ v, evalExpr env e = .ok v ∧ valueTy v = t) ∨ (∃ k, evalExpr env e = .error (.run "exec" k)) := by
+  rcases evalExpr_typed ds env henv e t h with ⟨v, hv, hty, _⟩ | ⟨k, hk⟩
+  · exact Or.inl ⟨v, hv, hty⟩
+  · exact Or.inr ⟨k, hk⟩
 
-/-- Every declared variable is bound to a value of its declared type. -/
-def EnvTyped (ds : Decls) (env : Env) : Prop :=
-  ∀ x t, ds.lookup x = some t → ∃ v, env.lookup x = some v ∧ valueTy v = t
-
-/-- Expression level of `welltyped_no_stack_fault`: an expression the compiler typed
-    evaluates to a value of that type, or stops with one of the VM's own runtime
-    errors (asset mismatch of `+` / `-`); it never hits a typed-pop fault. -/
-theorem welltyped_expr_no_fault (ds : Decls) (env : Env) (henv : EnvTyped ds env) :
-    (e : Expr) → (t : Ty) → typeExpr ds e = .ok t →
-    (∃ v, evalExpr env e = .ok v ∧ valueTy v = t) ∨ (∃ k, evalExpr env e = .error (.run "exec" k))
-  | .acct s, t, h => by simp only [typeExpr] at h; cases h; exact Or.inl ⟨_, rfl, rfl⟩
-  | .asset s, t, h => by
-    simp only [typeExpr] at h
-    split at h <;> cases h
-    exact Or.inl ⟨_, rfl, rfl⟩
-  | .num n, t, h => by simp only [typeExpr] at h; cases h; exact Or.inl ⟨_, rfl, rfl⟩
-  | .str s, t, h => by simp only [typeExpr] at h; cases h; exact Or.inl ⟨_, rfl, rfl⟩
-  | .portion x, t, h => by
-    simp only [typeExpr] at h
-    split at h
-    · rename_i p hp
-      cases h
-      exact Or.inl ⟨.portion p, by simp [evalExpr, hp], rfl⟩
-    · cases h
-  | .var x, t, h => by
-    simp only [typeExpr] at h
-    split at h
-    · rename_i t' hl
-      cases h
-      obtain ⟨v, hv, ht⟩ := henv x t hl
-      exact Or.inl ⟨v, by simp [evalExpr, hv], ht⟩
-    · cases h
-  | .mon a n, t, h => by
-    simp only [typeExpr] at h
-    split at h
-    · cases h
-    · rename_i ta hta
-      split at h
-      · rename_i heq
-        cases h
-        subst heq
-        rcases welltyped_expr_no_fault ds env henv a .asset hta with ⟨v, hv, hty⟩ | ⟨k, hk⟩
-        · cases v <;> simp [valueTy] at hty
-          exact Or.inl (by simp only [evalExpr, hv]; exact ⟨_, rfl, rfl⟩)
-        · exact Or.inr ⟨k, by simp [evalExpr, hk]⟩
-      · cases h
-  | .add l r, t, h => by
-    simp only [typeExpr] at h
-    split at h
-    · cases h
-    · rename_i hl
-      split at h
-      · cases h
-      · rename_i rt hr
-        split at h
-        · rename_i heq
-          cases h; subst heq
-          rcases welltyped_expr_no_fault ds env henv l .number hl with ⟨v, hv, hty⟩ | ⟨k, hk⟩
-          · rcases welltyped_expr_no_fault ds env henv r .number hr with ⟨w, hw, hty'⟩ | ⟨k, hk⟩
-            · cases v <;> simp [valueTy] at hty
-              cases w <;> simp [valueTy] at hty'
-              exact Or.inl (by simp only [evalExpr, hv, hw]; exact ⟨_, rfl, rfl⟩)
-            · exact Or.inr ⟨k, by simp [evalExpr, hv, hk]⟩
-          · exact Or.inr ⟨k, by simp [evalExpr, hk]⟩
-        · cases h
-    · rename_i hl
-      split at h
-      · cases h
-      · rename_i rt hr
-        split at h
-        · rename_i heq
-          cases h; subst heq
-          rcases welltyped_expr_no_fault ds env henv l .monetary hl with ⟨v, hv, hty⟩ | ⟨k, hk⟩
-          · rcases welltyped_expr_no_fault ds env henv r .monetary hr with ⟨w, hw, hty'⟩ | ⟨k, hk⟩
-            · cases v <;> simp [valueTy] at hty
-              cases w <;> simp [valueTy] at hty'
-              rename_i a1 x a2 y
-              by_cases ha : a1 = a2
-              · subst ha
-                exact Or.inl ⟨.monetary a1 (some (nilAsZero x + nilAsZero y)), by simp [evalExpr, hv, hw], rfl⟩
-              · exact Or.inr ⟨"add-asset", by simp [evalExpr, hv, hw, ha]⟩
-            · exact Or.inr ⟨k, by simp [evalExpr, hv, hk]⟩
-          · exact Or.inr ⟨k, by simp [evalExpr, hk]⟩
-        · cases h
-    · cases h
-  | .sub l r, t, h => by
-    simp only [typeExpr] at h
-    split at h
-    · cases h
-    · rename_i hl
-      split at h
-      · cases h
-      · rename_i rt hr
-        split at h
-        · rename_i heq
-          cases h; subst heq
-          rcases welltyped_expr_no_fault ds env henv l .number hl with ⟨v, hv, hty⟩ | ⟨k, hk⟩
-          · rcases welltyped_expr_no_fault ds env henv r .number hr with ⟨w, hw, hty'⟩ | ⟨k, hk⟩
-            · cases v <;> simp [valueTy] at hty
-              cases w <;> simp [valueTy] at hty'
-              exact Or.inl (by simp only [evalExpr, hv, hw]; exact ⟨_, rfl, rfl⟩)
-            · exact Or.inr ⟨k, by simp [evalExpr, hv, hk]⟩
-          · exact Or.inr ⟨k, by simp [evalExpr, hk]⟩
-        · cases h
-    · rename_i hl
-      split at h
-      · cases h
-      · rename_i rt hr
-        split at h
-        · rename_i heq
-          cases h; subst heq
-          rcases welltyped_expr_no_fault ds env henv l .monetary hl with ⟨v, hv, hty⟩ | ⟨k, hk⟩
-          · rcases welltyped_expr_no_fault ds env henv r .monetary hr with ⟨w, hw, hty'⟩ | ⟨k, hk⟩
-            · cases v <;> simp [valueTy] at hty
-              cases w <;> simp [valueTy] at hty'
-              rename_i a1 x a2 y
-              by_cases ha : a1 = a2
-              · subst ha
-                exact Or.inl ⟨.monetary a1 (some (nilAsZero x - nilAsZero y)), by simp [evalExpr, hv, hw], rfl⟩
-              · exact Or.inr ⟨"sub-asset", by simp [evalExpr, hv, hw, ha]⟩
-            · exact Or.inr ⟨k, by simp [evalExpr, hv, hk]⟩
-          · exact Or.inr ⟨k, by simp [evalExpr, hk]⟩
-        · cases h
-    · cases h
-
-/-- The full claim "a compiled program never panics / faults".  It is FALSE of the
-    real code (two counterexamples below); the statement-level no-fault part is not
-    proved yet (only `welltyped_expr_no_fault`). -/
+/-- The full claim "a compiled program never panics / faults", for a variant `cfg` of
+    the code. -/
 def welltyped_no_stack_fault (cfg : Cfg) : Prop :=
   ∀ (s : Script) (inp : Input) (ds : Decls), typecheck s = .ok ds →
     ∀ w, sem cfg s inp ≠ .error (.panic w) ∧ sem cfg s inp ≠ .error (.fault w)
+
+/-- `welltyped_no_stack_fault` holds in full for the current code (`Cfg.fixed`): whatever the
+    variables, balances and metadata, a program the compiler's checks accept never hits a
+    typed-pop / stack fault nor a panic in `sem` — variable resolution, balance resolution
+    and every statement included.  (Induction over declarations, sources, destinations.) -/
+theorem welltyped_no_stack_fault_holds : welltyped_no_stack_fault Cfg.fixed := by
+  intro s inp ds htc w
+  exact ⟨(sem_nf htc inp w).2, (sem_nf htc inp w).1⟩
 
 /-- Defect 1 (confirmed on the real code: nil-pointer dereference in OP_TAKE): two
     `balance()` variables on one account leave the first one with a nil amount. -/
